@@ -13,7 +13,8 @@
 // `any_cast<T>(&a)` (p), `any_cast<T>(&const a)` (cp), `any_cast<const T&>(const a)` (r): the value
 // code, or x for nullptr / bad_any_cast.  Then every container is destroyed and the final counters
 // and the net number of `operator new` allocations of the whole sequence (`leak=`) are printed.
-// Operation tokens: see lean/BFL/Driver/AnyBox.lean.
+// Operation tokens: see lean/BFL/Driver/AnyBox.lean (`!op`: the throwing probe is armed; `~op` / `~~op`: the first /
+// second call of `operator new` that any.h makes inside the operation throws std::bad_alloc).
 //
 // The mode token may carry a probe family member: `F:<id>` / `L:<id>` (e.g. `L:24x`).  The held types behind the
 // tags p and t are then SP<N,NX,A,false> and SP<N,NX,A,true>: instance-counted probes of exactly N bytes (N = 1..64 at
@@ -30,8 +31,15 @@
 #include <typeinfo>
 
 // ---- every `new` / `delete` of the process is counted (holders, string buffers, the pool objects)
+// While the harness is inside an expression of any.h (`g_window`) and a fuse is set, the (fuse+1)-th call of
+// `operator new` throws std::bad_alloc (tokens `~op`, `~~op`).
 static long g_live_allocs = 0;
-void* operator new(std::size_t n) { void* p = std::malloc(n ? n : 1); if (!p) throw std::bad_alloc(); ++g_live_allocs; return p; }
+static long g_new_fuse = -1;
+static bool g_window = false;
+void* operator new(std::size_t n) {
+    if (g_window && g_new_fuse >= 0) { if (g_new_fuse == 0) { g_new_fuse = -1; throw std::bad_alloc(); } --g_new_fuse; }
+    void* p = std::malloc(n ? n : 1); if (!p) throw std::bad_alloc(); ++g_live_allocs; return p;
+}
 void operator delete(void* p) noexcept { if (p) { --g_live_allocs; std::free(p); } }
 
 using bfl::any::any;
@@ -178,24 +186,36 @@ static long g_n = 0;
 static bool is_live(long k) { return k >= 0 && k < g_n && pool[k] != nullptr; }
 static bool is_free(long k) { return k >= 0 && k < g_n && pool[k] == nullptr; }
 
+// ---- a pool object: storage from `operator new` obtained before, the constructor of `any` run inside the window
+// (what the new-expression `new any(args)` does, with the two steps separated so that only allocations made by any.h
+// itself can be made to fail); destroyed with `delete`
+struct AnyMem {
+    void* mem;
+    AnyMem() : mem(::operator new(sizeof(any))) { g_window = true; }
+    any* done(any* p) { g_window = false; mem = nullptr; return p; }
+    ~AnyMem() { g_window = false; if (mem) ::operator delete(mem); }
+};
+#define NEW_ANY(k, ...) do { AnyMem am_; pool[k] = am_.done(new (am_.mem) any(__VA_ARGS__)); } while (0)
+#define IN_ANY_H(stmt) do { g_window = true; stmt; g_window = false; } while (0)
+
 // ---- construction / assignment from a value, by argument category
 template <class T> static std::string ctor_val(long k, Cat c, long code) {
     T v = V<T>::mk(code);
     switch (c) {
-        case LREF: pool[k] = new any(v); break;
-        case CLREF: pool[k] = new any(static_cast<const T&>(v)); break;
-        case RREF: pool[k] = new any(std::move(v)); break;
-        case CRREF: pool[k] = new any(static_cast<const T&&>(v)); break;
+        case LREF: NEW_ANY(k, v); break;
+        case CLREF: NEW_ANY(k, static_cast<const T&>(v)); break;
+        case RREF: NEW_ANY(k, std::move(v)); break;
+        case CRREF: NEW_ANY(k, static_cast<const T&&>(v)); break;
     }
     return "src=" + V<T>::code(v);
 }
 template <class T> static std::string asgn_val(long a, Cat c, long code) {
     T v = V<T>::mk(code);
     switch (c) {
-        case LREF: *pool[a] = v; break;
-        case CLREF: *pool[a] = static_cast<const T&>(v); break;
-        case RREF: *pool[a] = std::move(v); break;
-        case CRREF: *pool[a] = static_cast<const T&&>(v); break;
+        case LREF: IN_ANY_H(*pool[a] = v); break;
+        case CLREF: IN_ANY_H(*pool[a] = static_cast<const T&>(v)); break;
+        case RREF: IN_ANY_H(*pool[a] = std::move(v)); break;
+        case CRREF: IN_ANY_H(*pool[a] = static_cast<const T&&>(v)); break;
     }
     return "src=" + V<T>::code(v);
 }
@@ -211,13 +231,14 @@ template <class T> static std::string poke_ref(long a, long code) {
 template <class T> static std::string cast_val(long a, char form) {
     try {
         switch (form) {
-            case 'l': { T x = any_cast<T>(*pool[a]); return "r=" + V<T>::code(x); }
-            case 'c': { T x = any_cast<T>(static_cast<const any&>(*pool[a])); return "r=" + V<T>::code(x); }
-            case 'r': { T x = any_cast<T>(std::move(*pool[a])); return "r=" + V<T>::code(x); }
-            case 'm': { T x = any_cast<T&&>(std::move(*pool[a])); return "r=" + V<T>::code(x); }
+            case 'l': { g_window = true; T x = any_cast<T>(*pool[a]); g_window = false; return "r=" + V<T>::code(x); }
+            case 'c': { g_window = true; T x = any_cast<T>(static_cast<const any&>(*pool[a])); g_window = false; return "r=" + V<T>::code(x); }
+            case 'r': { g_window = true; T x = any_cast<T>(std::move(*pool[a])); g_window = false; return "r=" + V<T>::code(x); }
+            case 'm': { g_window = true; T x = any_cast<T&&>(std::move(*pool[a])); g_window = false; return "r=" + V<T>::code(x); }
             default: throw vh::BadArgs("form");
         }
     } catch (const bad_any_cast& e) {
+        g_window = false;
         const std::bad_cast& base = e; (void)base;      // bad_any_cast is a std::bad_cast; its what() text is not promised
         return "r=x";
     }
@@ -315,16 +336,16 @@ static std::string exec_op(const std::string& tok) {
     const std::string& op = f[0];
     if (op == "df" && f.size() == 2) {
         long k = num(f[1]); if (!is_free(k)) return "inv";
-        pool[k] = new any(); return "ok";
+        NEW_ANY(k, ); return "ok";
     }
     if (op == "ca" && f.size() == 4) {
         long k = num(f[1]), s = num(f[2]); Cat c = cat_of(f[3]);
         if (!is_free(k) || !is_live(s)) return "inv";
         switch (c) {
-            case LREF: pool[k] = new any(*pool[s]); break;
-            case CLREF: pool[k] = new any(static_cast<const any&>(*pool[s])); break;
-            case RREF: pool[k] = new any(std::move(*pool[s])); break;
-            case CRREF: pool[k] = new any(static_cast<const any&&>(*pool[s])); break;
+            case LREF: NEW_ANY(k, *pool[s]); break;
+            case CLREF: NEW_ANY(k, static_cast<const any&>(*pool[s])); break;
+            case RREF: NEW_ANY(k, std::move(*pool[s])); break;
+            case CRREF: NEW_ANY(k, static_cast<const any&&>(*pool[s])); break;
         }
         return "ok";
     }
@@ -337,10 +358,10 @@ static std::string exec_op(const std::string& tok) {
         long a = num(f[1]), b = num(f[2]); Cat c = cat_of(f[3]);
         if (!is_live(a) || !is_live(b)) return "inv";
         switch (c) {
-            case LREF: *pool[a] = *pool[b]; break;
-            case CLREF: *pool[a] = static_cast<const any&>(*pool[b]); break;
-            case RREF: *pool[a] = std::move(*pool[b]); break;
-            case CRREF: *pool[a] = static_cast<const any&&>(*pool[b]); break;
+            case LREF: IN_ANY_H(*pool[a] = *pool[b]); break;
+            case CLREF: IN_ANY_H(*pool[a] = static_cast<const any&>(*pool[b])); break;
+            case RREF: IN_ANY_H(*pool[a] = std::move(*pool[b])); break;
+            case CRREF: IN_ANY_H(*pool[a] = static_cast<const any&&>(*pool[b])); break;
         }
         return "ok";
     }
@@ -391,14 +412,22 @@ static void destroy_all() {
 static std::string anyseq_run(Toks& t, long n, bool full) {
     std::string out; out.reserve(4096);
     g_n = n;
-    Probe::live = Probe::copies = Probe::moves = 0; Thrower::fuse = -1; reset_codes();
+    Probe::live = Probe::copies = Probe::moves = 0; Thrower::fuse = -1; reset_codes(); g_window = false; g_new_fuse = -1;
     const long n0 = g_live_allocs;
     try {
         bool first = true;
         while (!t.empty()) {
             std::string tok = t.tok();
             std::string r;
-            if (!tok.empty() && tok[0] == '!') {
+            g_window = false; g_new_fuse = -1;
+            if (!tok.empty() && tok[0] == '~') {
+                // the first (`~`) / second (`~~`) call of operator new made by any.h inside this operation throws std::bad_alloc
+                std::size_t skip = (tok.size() > 1 && tok[1] == '~') ? 2 : 1;
+                g_new_fuse = (long)skip - 1;
+                try { r = exec_op(tok.substr(skip)); }
+                catch (const std::bad_alloc&) { r = "threw"; }
+                g_new_fuse = -1; g_window = false;
+            } else if (!tok.empty() && tok[0] == '!') {
                 // the copy constructor of the throwing probe is armed for this operation only
                 Thrower::fuse = 0;
                 try { r = exec_op(tok.substr(1)); }
@@ -413,7 +442,7 @@ static std::string anyseq_run(Toks& t, long n, bool full) {
         destroy_all();
         if (!first) out += ' ';
         out += "END "; out += counters();
-    } catch (...) { destroy_all(); throw; }
+    } catch (...) { g_window = false; g_new_fuse = -1; destroy_all(); throw; }
     out += " leak=" + std::to_string(g_live_allocs - n0);
     return out;
 }
